@@ -118,6 +118,15 @@ Ltac wnorm :=
   repeat rewrite input_w_app; repeat rewrite input_w_cons; rewrite ?input_w_nil;
   cbn [item_w length snd fst pc_w app].
 
+Lemma stale_script_length sc : length (stale_script sc) = length sc.
+Proof. unfold stale_script. apply map_length. Qed.
+Lemma hs_w_stale l : hs_w (stale_hs l) = hs_w l.
+Proof.
+  unfold hs_w, stale_hs. induction l as [|[r sc] l IH]; [reflexivity|].
+  cbn [map fst snd]. change (list_sum (?a :: ?b)) with (a + list_sum b).
+  cbn [list_sum]. rewrite stale_script_length. rewrite IH. reflexivity.
+Qed.
+
 Lemma teardown_len cfg : length (teardown_of cfg) = 5.
 Proof. destruct (teardown_of_cases cfg) as [-> |[-> |[-> | ->]]]; reflexivity. Qed.
 
@@ -158,7 +167,9 @@ Proof.
       * inversion H; subst. eapply Hfin; [discriminate|reflexivity|]. cbn [pc input hs]. wnorm. lia.
       * inversion H; subst. eapply Hfin; [discriminate|reflexivity|]. cbn [pc input hs].
         pose proof (after_plain_w (input c)) as Hap.
-        destruct (after_plain (input c)) as [|[| |] r0]; repeat rewrite input_w_cons in Hap; cbn [item_w] in Hap; wnorm; lia.
+        destruct (after_plain (input c)) as [|[| |] r0]; repeat rewrite input_w_cons in Hap; cbn [item_w] in Hap;
+          cbn [pc_w]; rewrite ?stale_script_length, ?hs_w_stale; wnorm; lia.
+      * inversion H; subst. eapply Hfin; [discriminate|reflexivity|]. cbn [pc input hs]. wnorm. lia.
   - destruct todo as [|t rest].
     + inversion H; subst. eapply Hfin; [discriminate|reflexivity|]. cbn [pc input hs set_pc]. wnorm. lia.
     + destruct t; [|destruct (inflight c =? 0); [|discriminate]| |destruct (negb (has_onclose cfg)); [|destruct (onclose_held s); [discriminate|]]|];
@@ -184,6 +195,7 @@ Proof.
     + destruct (recovery cfg && handler_rec cfg).
       * inversion H; subst. eapply Hfin; [discriminate|reflexivity|]. cbn [pc input hs]. lia.
       * inversion H; subst. left. split; reflexivity.
+    + inversion H; subst. eapply Hfin; [discriminate|reflexivity|]. cbn [pc input hs]. wnorm. lia.
     + inversion H; subst. eapply Hfin; [discriminate|reflexivity|]. cbn [pc input hs]. wnorm. lia.
     + inversion H; subst. eapply Hfin; [discriminate|reflexivity|]. cbn [pc input hs]. wnorm. lia.
 Qed.
